@@ -969,3 +969,25 @@ func (t *Target) Seed(db int, args ...string) {
 	}
 	t.request(0, bs)
 }
+
+// ReplayFaults is ReplayWith for a log that was recorded under fault injection: the
+// requests listed in failAt (index over the log) fail again — they are not applied, a
+// failing queued command aborts its transaction — exactly as when they were received.
+// The faults are transient: the returned target has none.
+func ReplayFaults(entries []LogEntry, nowMs int64, lenient bool, failAt map[int]string) *Target {
+	t := NewTarget()
+	t.Lenient = lenient
+	if nowMs != 0 {
+		t.NowMs = nowMs
+	}
+	for k, v := range failAt {
+		t.FailAt[k] = v
+	}
+	for _, e := range entries {
+		t.request(e.Conn, e.Args)
+	}
+	t.FailAt = map[int]string{}
+	t.conns = map[int]*connState{}
+	t.nextID = 1 << 20
+	return t
+}
